@@ -7,8 +7,7 @@ ID = "C17"
 LEVEL = "exploration"
 RULE = ("grid: structured matrix catalogue (KKT-like symmetric indefinite incl. the reduced systems of the symmetric step solver, SPD, "
         "unsymmetric, diagonal, scaled permutation; structurally singular: zero row / zero column / duplicate structure; numerically singular) "
-        "x magnitude scalings x sparse format {coo, csr, csc} x right-hand sides {e_i, ones, mixed, large} x initial guess {none, zero, exact, "
-        "perturbed} x transposed x solver {LU, GMRES, MINRES(symmetric only)}; oracle = dense residual / backward error; distinct = (matrix, rhs, "
+        "x magnitude scalings x sparse format {coo, csr, csc} x right-hand sides {e_i, ones, mixed, large} x initial guess {none, zero, exact, perturbed, solution of the oppositely transposed system} x transposed x solver {LU, GMRES, MINRES(symmetric only)}; oracle = dense residual / backward error; distinct = (matrix, rhs, "
         "guess, trans, solver) with a non-diagonal matrix")
 ASSUMPTIONS = ["n <= 5; condition numbers <= 1e4 for the 'must solve' class",
                "LU: backward error <= 1e-12; GMRES: |r| <= max(1e-8, 1e-5|b|)(1+1e-2); MINRES: |r| <= 1e-5(|A||x|+|b|)(1+1e-2) (its stopping rule)",
@@ -115,7 +114,9 @@ def run_case(case):
                     exact = np.linalg.solve(A, b)
                 guesses = [("none", None), ("zero", np.zeros(n))]
                 if exact is not None:
-                    guesses += [("exact", exact), ("perturbed", exact + 1e-3 * np.array([1.0, -1.0, 2.0, -2.0, 1.0][:n]))]
+                    guesses += [("exact", exact), ("perturbed", exact + 1e-3 * np.array([1.0, -1.0, 2.0, -2.0, 1.0][:n])),
+                                # a warm start that solves the system with the *other* orientation of the matrix
+                                ("other_orientation", np.linalg.solve(A.T, b))]
                 for gname, g in guesses:
                     at = dict(at0, rhs=rn, trans=trans, guess=gname)
                     stats["solves"] += 1
